@@ -31,7 +31,7 @@ deriving DecidableEq, Repr
 structure CGGraph where
   nodes : List (Nat × Attrs) := []
   edges : List CGEdge := []
-deriving Repr, Inhabited
+deriving Repr, Inhabited, DecidableEq
 
 namespace CGGraph
 def hasNode (g : CGGraph) (k : Nat) : Bool := g.nodes.any (·.1 == k)
@@ -281,24 +281,20 @@ def closeLoop : Nat → Str → Nat → RState → Py RState
       closeLoop fuel rest (eonA + 1) st
     else pure st
 
-/-- the loop body of read_cgsmiles for one regex match -/
-def stepNode (st : RState) (m : Char × Str × Str) : Py RState := do
-  let (pre, nameText, rest) := m
-  -- branch opening
-  let st ← if pre == '(' then do
-      let attrs ← match st.attrs with
-        | none => throw PyErr.unbound
-        | some a => pure a
+/-- read_cgsmiles.py:142-148: a node preceded by `(` opens a branch -/
+def openBranch (st : RState) (pre : Char) : Py RState :=
+  if pre == '(' then
+    match st.attrs with
+    | none => throw PyErr.unbound
+    | some attrs =>
       pure { st with branching := true, anchors := st.anchors ++ [st.prev],
                      recipes := recipesSet st.recipes st.prev [⟨1, attrs, some 1⟩] }
-    else pure st
-  -- ring scan
-  let scan ← ringScan rest
-  let (cycle, ringEdges) := applyRings st.cycle st.current scan.occs []
-  let rdx := scan.rdx.orElse fun _ => st.rdx
-  let st := { st with cycle := cycle, rdx := rdx }
-  -- bond order following the node
-  let bondOrder ← if rest.isEmpty then pure defaultBondOrder else
+  else pure st
+
+/-- read_cgsmiles.py:196-200: the bond order following the node, from the character before the one
+    that stopped the ring scan -/
+def bondOrderOf (rest : Str) (rdx : Option Nat) : Py Nat :=
+  if rest.isEmpty then pure defaultBondOrder else
     match rdx with
     | none => throw PyErr.unbound
     | some r =>
@@ -308,15 +304,42 @@ def stepNode (st : RState) (m : Char × Str × Str) : Py RState := do
         | some o => pure o
         | none => throw PyErr.key
       else pure defaultBondOrder
+
+/-- read_cgsmiles.py:202-214: the node multiplier `|n` and a bond symbol following it -/
+def multOf (rest : Str) (bondOrder : Nat) : Py (Nat × Nat) :=
+  match rest with
+  | '|' :: _ => do
+    let eon := findNext eonChars rest
+    let n ← pyIntLit ((rest.drop 1).take (eon - 1))
+    pure (n, match (rest[eon]?).bind symOrder with
+      | some o => o
+      | none => bondOrder)
+  | _ => pure (1, bondOrder)
+
+/-- read_cgsmiles.py:229-248: one copy of the node -/
+def addCopy (attributes : Attrs) (ringEdges : List (Nat × Nat × Nat)) (st : RState) : Py RState := do
+  let g := st.g.addNode st.current attributes
+  let g := match st.prev with
+    | some p => g.addEdge p st.current st.pbo
+    | none => g
+  let g ← ringEdges.foldlM (fun (g : CGGraph) (e : Nat × Nat × Nat) =>
+    if g.hasEdge e.1 e.2.1 then throw PyErr.syntax else pure (g.addEdge e.1 e.2.1 (some e.2.2))) g
+  pure { st with g := g, pbo := some defaultBondOrder, prev := some st.current, current := st.current + 1 }
+
+/-- the loop body of read_cgsmiles for one regex match -/
+def stepNode (st : RState) (m : Char × Str × Str) : Py RState := do
+  let (pre, nameText, rest) := m
+  -- branch opening
+  let st ← openBranch st pre
+  -- ring scan
+  let scan ← ringScan rest
+  let (cycle, ringEdges) := applyRings st.cycle st.current scan.occs []
+  let rdx := scan.rdx.orElse fun _ => st.rdx
+  let st := { st with cycle := cycle, rdx := rdx }
+  -- bond order following the node
+  let bondOrder ← bondOrderOf rest rdx
   -- node multiplier
-  let (nMon, bondOrder) ← match rest with
-    | '|' :: _ => do
-      let eon := findNext eonChars rest
-      let n ← pyIntLit ((rest.drop 1).take (eon - 1))
-      pure (n, match (rest[eon]?).bind symOrder with
-        | some o => o
-        | none => bondOrder)
-    | _ => pure (1, bondOrder)
+  let (nMon, bondOrder) ← multOf rest bondOrder
   -- annotations
   let attributes ← parseBase nameText
   let st := { st with attrs := some attributes }
@@ -325,14 +348,7 @@ def stepNode (st : RState) (m : Char × Str × Str) : Py RState := do
       { st with recipes := recipesSet st.recipes k (recipesGet st.recipes k ++ [⟨nMon, attributes, st.pbo⟩]) }
     else st
   -- add the node n_mon times
-  let st ← (List.range nMon).foldlM (fun (st : RState) _ => do
-      let g := st.g.addNode st.current attributes
-      let g := match st.prev with
-        | some p => g.addEdge p st.current st.pbo
-        | none => g
-      let g ← ringEdges.foldlM (fun (g : CGGraph) (e : Nat × Nat × Nat) =>
-        if g.hasEdge e.1 e.2.1 then throw PyErr.syntax else pure (g.addEdge e.1 e.2.1 (some e.2.2))) g
-      pure { st with g := g, pbo := some defaultBondOrder, prev := some st.current, current := st.current + 1 }) st
+  let st ← (List.range nMon).foldlM (fun (st : RState) _ => addCopy attributes ringEdges st) st
   -- the bond order symbol after the node belongs to the bond with the next node
   let st := if nMon > 0 then { st with pbo := some bondOrder } else st
   -- branch closings
